@@ -740,19 +740,6 @@ macro_rules! line_calls {
         let own = $is_b && ($a + $b + $pidx) % 2 == 0 && $pidx < $info.0.as_ref().map_or(0, |i| i.paragraphs.len());
         let own_ref;
         let pref: &ParagraphInfo = if own { own_ref = &$info.0.as_ref().unwrap().paragraphs[$pidx]; own_ref } else { $para_clone };
-        // three FRESH analysis objects, each asked one of the line queries as its very FIRST query
-        let fresh_ro = $mk().and_then(|i2| guard(|| {
-            let c = if $is_b { let i = i2.0.as_ref().unwrap(); let p = if own { i.paragraphs[$pidx].clone() } else { pref.clone() }; i.reorder_line(&p, $a..$b) } else { i2.1.as_ref().unwrap().reorder_line($a..$b) };
-            $conv(&c)
-        }));
-        let fresh_vr = $mk().and_then(|i2| guard(|| {
-            let (l, r) = if $is_b { let i = i2.0.as_ref().unwrap(); i.visual_runs(&i.paragraphs.get($pidx).cloned().unwrap_or_else(|| pref.clone()), $a..$b) } else { i2.1.as_ref().unwrap().visual_runs($a..$b) };
-            (l.iter().map(|x| x.number()).collect::<Vec<u8>>(), r)
-        }));
-        let fresh_rl = $mk().and_then(|i2| guard(|| {
-            let l = if $is_b { let i = i2.0.as_ref().unwrap(); i.reordered_levels(&i.paragraphs.get($pidx).cloned().unwrap_or_else(|| pref.clone()), $a..$b) } else { i2.1.as_ref().unwrap().reordered_levels($a..$b) };
-            l.iter().map(|x| x.number()).collect::<Vec<u8>>()
-        }));
         // warm-up: other lines are asked of the SAME analysis object first (the whole paragraph, its first unit range
         // up to the line start, the line end up to the paragraph end) so that a result remembered from a previous
         // call cannot pass for the answer to this one
@@ -789,6 +776,21 @@ macro_rules! line_calls {
             let c = if $is_b { $info.0.as_ref().unwrap().reorder_line(pref, $a..$b) } else { $info.1.as_ref().unwrap().reorder_line($a..$b) };
             $conv(&c)
         });
+        // three FRESH analysis objects, each asked one of the line queries as its very FIRST query — made AFTER the
+        // measured calls: made before them they would hand the right answer to a result cache shared between equal
+        // analyses (keyed by text and levels) and so hide that the warm-up lines had poisoned it (red-team #11)
+        let fresh_ro = $mk().and_then(|i2| guard(|| {
+            let c = if $is_b { let i = i2.0.as_ref().unwrap(); let p = if own { i.paragraphs[$pidx].clone() } else { pref.clone() }; i.reorder_line(&p, $a..$b) } else { i2.1.as_ref().unwrap().reorder_line($a..$b) };
+            $conv(&c)
+        }));
+        let fresh_vr = $mk().and_then(|i2| guard(|| {
+            let (l, r) = if $is_b { let i = i2.0.as_ref().unwrap(); i.visual_runs(&i.paragraphs.get($pidx).cloned().unwrap_or_else(|| pref.clone()), $a..$b) } else { i2.1.as_ref().unwrap().visual_runs($a..$b) };
+            (l.iter().map(|x| x.number()).collect::<Vec<u8>>(), r)
+        }));
+        let fresh_rl = $mk().and_then(|i2| guard(|| {
+            let l = if $is_b { let i = i2.0.as_ref().unwrap(); i.reordered_levels(&i.paragraphs.get($pidx).cloned().unwrap_or_else(|| pref.clone()), $a..$b) } else { i2.1.as_ref().unwrap().reordered_levels($a..$b) };
+            l.iter().map(|x| x.number()).collect::<Vec<u8>>()
+        }));
         let lv = |v: &Option<Vec<Level>>| v.as_ref().map(|x| x.iter().map(|l| l.number()).collect::<Vec<u8>>());
         let fresh_ok = fresh_ro == ro.as_ref().map(|v| v.0.clone())
             && fresh_vr == vr.as_ref().map(|v| (v.0.iter().map(|x| x.number()).collect::<Vec<u8>>(), v.1.clone()))
